@@ -430,6 +430,7 @@ VmTrap vm_core_execute(VmState *vm) {
                     else
                         ev = val_int(i64_add(ea.as.i64, eb.as.i64));
                     vm_array_push(result, ev);
+                    vm_release(&vm->heap, ev); /* push retains: drop the reference the concat result came with */
                 }
                 vm_release(&vm->heap, a);
                 vm_release(&vm->heap, b);
@@ -467,6 +468,7 @@ VmTrap vm_core_execute(VmState *vm) {
                     } else
                         ev = val_int(i64_add(ea.as.i64, scalar.as.i64));
                     vm_array_push(result, ev);
+                    vm_release(&vm->heap, ev); /* push retains: drop the reference the concat result came with */
                 }
                 vm_release(&vm->heap, a);
                 vm_release(&vm->heap, b);
